@@ -249,6 +249,11 @@ def _healthy_job(args):
         sc["machines"]["bad"] = {"definition": payload}
         sc["script"] = [{"op": "start", "machine": "bad", "name": "b1", "input": {"x": 1}}, {"op": "start", "machine": "h", "name": "h1", "input": {"k": 1}},
                         {"op": "start", "machine": "h", "name": "h2", "input": {"k": 2}, "after_quiet": True}]
+    elif kind == "event-late":
+        # the poison arrives while a healthy execution holds an unacknowledged Task event (its request is with the worker)
+        sc["workers"]["fh"] = {"*": [["delay", ["ok", {"h": 1}]]]}
+        sc["script"] = [{"op": "start", "machine": "h", "name": "h1", "input": {"k": 1}}, {"op": "raw", "body": payload, "needs_request": "fh"},
+                        {"op": "start", "machine": "h", "name": "h2", "input": {"k": 2}, "after_quiet": True}]
     elif kind == "event-bytes":
         sc["script"] = [{"op": "raw", "body_hex": payload}, {"op": "start", "machine": "h", "name": "h1", "input": {"k": 1}},
                         {"op": "start", "machine": "h", "name": "h2", "input": {"k": 2}, "after_quiet": True}]
@@ -257,7 +262,7 @@ def _healthy_job(args):
                         {"op": "start", "machine": "h", "name": "h2", "input": {"k": 2}, "after_quiet": True}]
     sc["expect"] = {exec_arn("h", "h1"): {"status": "SUCCEEDED", "output": {"h": 1}}, exec_arn("h", "h2"): {"status": "SUCCEEDED", "output": {"h": 1}}}
     try:
-        r = explore(sc, lambda: monsets.healthy(sc), bound=2, max_states=3000, only=["M-ref", "M-escape", "M-drain", "M-life"])
+        r = explore(sc, lambda: monsets.healthy(sc), bound=2, max_states=3000, only=["M-ref", "M-escape", "M-drain", "M-life", "M-ackone"])
     except Exception as e:
         return {"error": "%s: %s" % (type(e).__name__, str(e)[:200]), "states": 0, "transitions": 0, "violations": []}
     viols = [v.to_json() for v, tr, p in r.violations]
@@ -299,6 +304,9 @@ def run(tier, seed):
                {"Id": "weird", "Input": {}, "StartTime": "2030-03-17T17:46:40+00:00"}, {"Id": 5, "Input": {}, "StartTime": "2030-03-17T17:46:40+00:00"}, {"Input": {}}):
         for st in ({"Name": "HT"}, {"Name": "HZ"}, {"Name": "HT", "Branch": [{"Parent": "HA", "ID": "x", "Index": 0, "Length": 1, "Input": {}}]}):
             hjobs.append(("event", json.dumps({"data": {}, "context": {"StateMachine": {"Id": "arn:aws:states:local:0123456789:stateMachine:h"}, "State": st, "Execution": ex}})))
+    for body in ("{not json", "[1]", "5", json.dumps({"data": {}}), json.dumps({"data": {}, "context": {"StateMachine": {"Id": "arn:aws:states:local:0123456789:stateMachine:ghost"}}}),
+                 json.dumps({"data": {}, "context": {"StateMachine": {"Id": "arn:aws:states:local:0123456789:stateMachine:h"}, "State": {"Name": "Nope"}, "Execution": {"Id": HX, "Input": {}, "StartTime": "2030-03-17T17:46:40+00:00"}}})):
+        hjobs.append(("event-late", body))
     for raw in ('{"data": "caf\u00e9", "context": {}}'.encode("latin-1"), '{"data": {}, "context": {}}'.encode("utf-16"), b"\x1f\x8b\x08\x00\xfe\xff\x80\x81", b"\xff", b"\xc3"):
         hjobs.append(("event-bytes", raw.hex()))
     ctx = multiprocessing.get_context("fork")
